@@ -94,26 +94,40 @@ def run_case(case):
         for name, text in case["files"].items():
             with open(os.path.join(d, name), "w", encoding="utf-8", newline="") as f:
                 f.write(text)
-        mm = metamodel_from_str(GRAMMAR, textx_tools_support=True)
+        kw = {"global_repository": True} if case.get("grepo") else {}
+        mm = metamodel_from_str(GRAMMAR, textx_tools_support=True, **kw)
+        if case.get("builtins"):
+            # objects that are instances of Item (hence of Target) but belong to no model
+            item = mm["Item"]
+            bi = {}
+            for nm in case["builtins"]:
+                o = item.__new__(item)
+                o.name = nm
+                bi[nm] = o
+            mm.builtins = bi
         if case["mode"] == "scripted":
             mm.register_scope_providers({"*.*": Scripted(case["table"])})
         else:
             mm.register_scope_providers({"*.*": FQNImportURI(), "Pick.val": RelativeName("inst.type.elems")})
+        k = 0
         try:
             if case.get("from_str"):
                 m = mm.model_from_str(case["files"][case["main"]])
                 out["outcome"] = "ok"
                 out["models"] = {case["main"]: dump_model(m)}
             else:
-                m = mm.model_from_file(os.path.join(d, case["main"]))
+                loaded = {}
+                for k, main in enumerate(case.get("loads") or [case["main"]]):
+                    m = mm.model_from_file(os.path.join(d, main))
+                    loaded.update(all_models_of(m))
                 out["outcome"] = "ok"
-                out["models"] = {name: dump_model(mod) for name, mod in all_models_of(m).items()}
+                out["models"] = {name: dump_model(mod) for name, mod in loaded.items()}
         except TextXSemanticError as e:
             msg = str(e)
             if "Unresolvable cross references" in msg:
-                out["outcome"] = "unresolvable"
+                out["outcome"] = "fail%d:unresolvable" % k
             elif "Unknown object" in msg:
-                out["outcome"] = "unknown"
+                out["outcome"] = "fail%d:unknown" % k
             else:
                 out["outcome"] = "semantic:" + msg[:200].replace(d, "")
         except TextXError as e:
